@@ -3,7 +3,10 @@
 cd /verif
 if ! git -C /repo apply /verif/seeded/$1/patch.diff 2>/tmp/apply.err; then echo "PATCH DOES NOT APPLY: $(head -2 /tmp/apply.err)"; git -C /repo reset -q --hard HEAD; exit 3; fi
 git -C /repo reset -q
+cp evidence/$2.json /tmp/evidence_$2.bak 2>/dev/null
 bin/vp check $2 ${3:-quick} > /tmp/seed_$1_$2.out 2>&1; rc=$?
+# the evidence of a run on a mutated tree is not evidence about /repo: put the previous file back
+[ -f /tmp/evidence_$2.bak ] && mv /tmp/evidence_$2.bak evidence/$2.json
 grep -E "^VIOLATION|^KNOWN" /tmp/seed_$1_$2.out | cut -c1-200
 echo "seed=$1 check=$2 rc=$rc"
 git -C /repo checkout -- .
